@@ -111,7 +111,7 @@ class PathState:
                 v = eval_promoted(self.body, op['promoted'])
                 if v is not None:
                     return v
-            return ('const', op.get('val'), op.get('s'))
+            return ('const', op.get('val'), op.get('sv') or op.get('s'))
         if is_place_op(op):
             return self.place(op['place'])
         return ('unknown', 'op')
